@@ -100,6 +100,21 @@ def discharge(ob: Obligation, timeout_ms: int = QUICK_MS, use_cvc5: bool = True)
                 ob.model = s2.model()
                 ob.note = f"counterexample found among small inputs (run lengths <= {bound}); the general query was undecided"
                 break
+    if ob.verdict == "refuted" and not (ob.note or "").startswith("counterexample found among small"):
+        # prefer a SMALL counter-model (lengths of symbolic lists / texts narrowed): the same obligation, a faster and more readable replay
+        lens = [sym for name, sym in ob.symbols.items() if z3.is_int(sym) and not z3.is_array(sym) and "len" in name]
+        if lens and any(model_value(ob.model, x) not in range(0, 9) for x in lens):
+            for bound in (4, 12):
+                s3 = z3.Solver()
+                s3.set("timeout", min(timeout_ms, 5000))
+                for h in ob.hyps:
+                    s3.add(h)
+                s3.add(z3.Not(goal))
+                for x in lens:
+                    s3.add(x >= 0, x <= bound)
+                if s3.check() == z3.sat:
+                    ob.model = s3.model()
+                    break
     ob.ms = (time.time() - t0) * 1000
     return ob
 
